@@ -20,6 +20,7 @@ import (
 	storetypes "github.com/cosmos/cosmos-sdk/store/types"
 	sdk "github.com/cosmos/cosmos-sdk/types"
 	authtypes "github.com/cosmos/cosmos-sdk/x/auth/types"
+	govv1beta1 "github.com/cosmos/cosmos-sdk/x/gov/types/v1beta1"
 
 	"github.com/kava-labs/kava/app"
 	bep3keeper "github.com/kava-labs/kava/x/bep3/keeper"
@@ -47,7 +48,7 @@ import (
 const (
 	c16NUsers   = 10 // actors 0..9 are ordinary addresses; actor 9 has no account
 	c16NoAcc    = 9
-	c16DefaultL = 22
+	c16DefaultL = 32
 )
 
 var (
@@ -100,6 +101,20 @@ type c16World struct {
 
 	swapIDs [][]byte // bep3 swaps created by committed operations, newest first
 	nonce   int      // makes random number hashes distinct
+
+	// the gov router of the app under test: changes of the designated principals go through the
+	// handlers an enacted governance proposal reaches (x/params ParameterChangeProposal handler,
+	// x/committee proposal handler).  Keepers, msg servers and this router are created once per
+	// history, so whatever a keeper remembers in memory lives as long as it does in a node.
+	govRoute govv1beta1.Router
+	queue    []c16Queued // directed follow-up operations (re-probes after a change of principals)
+}
+
+// c16Queued is a pending directed operation: the kind and the market / asset / denom / committee it is about.
+type c16Queued struct {
+	kind   string
+	a      int
+	commit int // -1: drawn, 0: never, 1: always
 }
 
 func dec(s string) sdk.Dec { return sdk.MustNewDecFromStr(s) }
@@ -349,6 +364,7 @@ func c16Setup(r *Rng) *c16World {
 	w.swapMsg = swapkeeper.NewMsgServerImpl(tApp.GetSwapKeeper())
 	ek := tApp.GetEarnKeeper()
 	w.earnMsg = earnkeeper.NewMsgServerImpl(ek)
+	w.govRoute = tApp.GetGovKeeper().LegacyRouter()
 
 	// ---- initial records, through the keepers
 	// a refused set-up step is tolerated (the history then starts from whatever
